@@ -44,6 +44,10 @@ type IterOp struct {
 	Reverse bool       `json:"reverse,omitempty"`
 	Prefix  []byte     `json:"prefix,omitempty"`
 	Calls   []IterCall `json:"calls"`
+	// Backward: Seeks to targets behind the cursor are issued too. Their result is not specified (C10 leaves it
+	// open), so nothing is compared with the reference cursor from there to the next Rewind; the engine's answers
+	// only go into the transcript (C14 compares transcripts of configurations with equal shard counts).
+	Backward bool `json:"backward,omitempty"`
 }
 
 type IterCall struct {
